@@ -53,7 +53,7 @@ def patch_connection():
             if s is None or s.finished:
                 return orig(self, *a, **k)
             role = s.cur.role if s.cur else "?"
-            ev = s.emit("call", op=opf(self, *a, **k), ctx=f"api@{role}")
+            ev = s.emit("call", op=opf(self, *a, **k), ctx=f"api@{role}" + ("-final" if getattr(self, "_verif_final", False) else ""))
             exc = None
             try:
                 return orig(self, *a, **k)
@@ -231,6 +231,53 @@ class ApiSession:
             api.sleep(spec.get("settle", 1.0))
             for obj in objs:
                 obj.close()
+            conn.close()
+            api.sleep(5)
+        elif kind == "subunit_wire":
+            # end to end: typed reads / assignments / action methods on a real subunit object on a real connection; the device reports values
+            import ynca.connection as YC
+            from .realobj import subunit_class
+            from .l3 import show_real
+            from .wire import from_token
+            conn = YC.YncaConnection("virtual://port")
+            conn.connect(None, 0)
+            obj = subunit_class(spec["class"])(conn)
+            if spec.get("initialize"):
+                ev = api.emit("api_call", op="sub_initialize", cls=spec["class"], idx=0)
+                exc = None
+                try:
+                    obj.initialize()
+                except sched.Hang:
+                    raise
+                except BaseException as e:  # noqa: BLE001
+                    exc = e
+                api.emit("api_ret", call=ev["seq"], op="sub_initialize", idx=0, exc=type(exc).__name__ if exc else None, msg=str(exc)[:200] if exc else None)
+            for op in spec["ops"]:
+                if op[0] == "sleep":
+                    api.sleep(op[1])
+                    continue
+                if op[0] == "until":
+                    if api.now < op[1] * 1_000_000:
+                        api.sleep(op[1] - api.now / 1_000_000)
+                    continue
+                ev = api.emit("w_call", op=op)
+                exc = None
+                res = None
+                try:
+                    if op[0] == "assign":
+                        setattr(obj, op[1], from_token(op[2]))
+                    elif op[0] == "act":
+                        getattr(obj, op[1])(*[from_token(t) for t in op[2]])
+                    elif op[0] == "read":
+                        res = show_real(getattr(obj, op[1]))
+                except sched.Hang:
+                    raise
+                except BaseException as e:  # noqa: BLE001
+                    exc = e
+                api.emit("w_ret", call=ev["seq"], op=op, exc=type(exc).__name__ if exc else None, msg=str(exc)[:200] if exc else None, res=res)
+            api.sleep(spec.get("settle", 3.0))
+            obj.close()
+            conn._verif_final = True         # this close() ends the observation (see monitors.lifecycle)
             conn.close()
             api.sleep(5)
         return "done"
